@@ -476,3 +476,20 @@ var ruleTab = &Rule{
 		return obs
 	},
 }
+
+// ruleTabK6: only the kept-parentheses clause of the table rule (C20: `(x)` must stay distinguishable from `x`
+// for the structural checks 8, 19, 20)
+var ruleTabK6 = &Rule{
+	Name: "TAB/K6-kept-parentheses",
+	Text: "parentheses are kept as a ParensExp node around exactly the expression kinds whose meaning they change (vararg, call, name, index): the structural pattern checks compare AST shapes, so `x = (x)`, `if (y) … elseif y` and `local a, b = (f())` must not look like their unparenthesised forms",
+	Run: func(c *Ctx) []Ob {
+		var out []Ob
+		for _, o := range ruleTab.Run(c) {
+			if strings.HasPrefix(o.Key, "TAB/K6:") {
+				out = append(out, o)
+			}
+		}
+		out = append(out, floor("TAB/K6-kept-parentheses", "kept-parentheses obligations", len(out), 4))
+		return out
+	},
+}
